@@ -23,6 +23,41 @@ CLAIMED = {
     technique='SMT bounded model checking of kernel LLVM IR (llbmc + z3), biconditional oracle'),
 }
 
+def mc(text, note, ref, tech='SMT bounded model checking of kernel LLVM IR (llbmc + z3) against an independent oracle; native ASan replay'):
+    return dict(cat='model_checking', ref=ref, text=text, note=note, technique=tech)
+
+CLAIMED.update({
+ 'C01': mc('Bounded model checking of the slicing kernels and the range pipeline (carrylength -> allocation -> range) against CPython slice/index '
+           'semantics stated independently in z3: per list the selected positions, their order, the carry offsets and the error outcome, for all '
+           '64-bit start/stop/at values (regularize_rangeslice: every value, no size bound), lists <= 2/3 of length <= 3/4, |step| <= 2/3.',
+           'Kernel and kernel-pipeline level: Content::getitem tuple orchestration, toslice() (pybind11), field/ellipsis/newaxis items and the '
+           'jagged-slice kernels are outside this claim. Trusted: IR encoder, z3, the CPython slice model in hlib.py.', 'DESIGN.md section 3 (C01)'),
+ 'C03': mc('Bounded model checking of every leaf reducer specialization (fold per group with identity, first extremum for arg-reducers, '
+           'wrap-around in the output type, float kernels same order/precision) and of the local and non-local branches of '
+           'ListOffsetArray64::reduce_next wired kernel-by-kernel with the buffer sizes the C++ allocates, against a per-(group, depth) fold oracle.',
+           'Outside: Content::reduce axis normalisation, keepdims/mask_identity wrapping, option/record/union nodes, axis=None, complex/datetime. '
+           'Bounds: <= 3/4 elements, <= 2/3 groups, non-local lists <= 3 of length <= 2/3 (lengths case-split), products with the group assignment case-split.',
+           'DESIGN.md section 3 (C03)'),
+ 'C04': mc('Narrow claim: the three list re-alignment kernels behind broadcasting - equal lengths align element for element, unequal lengths '
+           'raise, length-1 regular dimensions repeat - for all target offsets (zero-based, monotone) and list layouts within n <= 3/4, L <= 3/4.',
+           'broadcast_and_apply / array_ufunc (Python over _ext, cannot be imported) are not addressed; this is the kernel core only.', 'DESIGN.md section 3 (C04)'),
+ 'C05': mc('Bounded model checking of the num / localindex / flatten kernels and the num<->compact_offsets round trip against list-structure laws '
+           '(concatenation law for flatten offsets, missing list = empty list).',
+           'Outside: ak.unflatten (NumPy in Python), completely_flatten, axis plumbing of the C++ methods. Known finding: flatten_offsets reads outside '
+           'inneroffsets for a degenerate empty list whose start == stop lies outside the content (accepted by the documented rule).', 'DESIGN.md section 3 (C05)'),
+ 'C07': mc('Bounded model checking of combinations_length -> n carry buffers of totallen -> recursive combinations fill, for n in 1..4, with and '
+           'without replacement, against itertools tables; list lengths case-split (<= 4), starts symbolic; counts, order, no neighbour leakage, fill = count.',
+           'Outside: ak.cartesian/argcartesian (Python), records/options as element types; RegularArray capacity arithmetic done in C++.', 'DESIGN.md section 3 (C07)'),
+ 'C08': mc('Bounded model checking of the fill/shift/simplify kernels: element j of a part lands at tooffset + j, indexes shifted by exactly the '
+           'content base, missing stays missing, numeric fills equal an independently stated C cast, nothing outside the destination range is written.',
+           'Outside: mergeable/mergemany dispatch, NumPy promotion table, ak.concatenate(axis>0) in Python; float->int casts outside the target range (UB) assumed away.',
+           'DESIGN.md section 3 (C08)'),
+ 'C09': mc('Bounded model checking of the rpad pipelines (length kernel sizes the index buffer of the fill kernel) for ListArray, ListOffsetArray, '
+           'RegularArray against the pad law, and of ten option-encoding kernels against one shared validity vector (index<0, byte mask either polarity, '
+           'bit mask either order and polarity, lengths not a multiple of 8).',
+           'Outside: ak.fill_none/is_none/mask Python wrappers, fillna merge step, simplify_optiontype.', 'DESIGN.md section 3 (C09)'),
+})
+
 NOT_APPLICABLE = {
  'C10': 'record field plumbing lives in std::string/std::vector<shared_ptr> code of RecordArray.cpp and in Python glue over _ext, which cannot be built (pybind11 headers absent); no integer kernel carries the property',
  'C15': 'io/json.cpp is a rapidjson SAX client; rapidjson headers are absent so the file cannot be compiled or lowered to IR',
@@ -30,7 +65,7 @@ NOT_APPLICABLE = {
  'C17': 'Form/Type JSON and parameters need rapidjson; type strings are std::string building; the datashape parser is a Lark table over regex lexing that builds _ext objects',
  'C20': 'Numba lowering needs _ext arrays to type against and only emits IR inside a Numba compile (Numba API mismatch, _ext absent)',
 }
-PENDING = ['C01', 'C02', 'C03', 'C04', 'C05', 'C06', 'C07', 'C08', 'C09', 'C12', 'C14', 'C18', 'C19']
+PENDING = ['C02', 'C06', 'C12', 'C14', 'C18', 'C19']
 
 checks = []
 for pid, c in sorted(CLAIMED.items()):
